@@ -12,7 +12,10 @@ SUPI = {"imsi": "imsi-{P}1", "imsiempty": "imsi-", "nodash": "imsi{P}1", "slash"
         "long": "imsi-{P}1" + "7" * 300}
 PLMN = {"ok": {"mcc": "208", "mnc": "93"}, "ok3": {"mcc": "208", "mnc": "093"}, "shortmcc": {"mcc": "20", "mnc": "93"},
         "shortmnc": {"mcc": "208", "mnc": "9"}, "emptymnc": {"mcc": "208", "mnc": ""},
-        "multibyte": {"mcc": "\u20ac", "mnc": "93"}}
+        "multibyte": {"mcc": "\u20ac", "mnc": "93"},
+        # parts of the wrong length whose concatenation has a legal length (5 or 6 digits)
+        "mcc2mnc3": {"mcc": "20", "mnc": "893"}, "mcc4mnc1": {"mcc": "2089", "mnc": "3"}, "mcc5": {"mcc": "20893", "mnc": ""},
+        "mnc5": {"mcc": "", "mnc": "20893"}, "mcc4mnc2": {"mcc": "2089", "mnc": "30"}}
 PDU = {
     "full": {"chargingId": 7, "pduSessionInformation": {"pduSessionID": 1, "dnnId": "internet",
              "networkSlicingInfo": {"sNSSAI": {"sst": 1, "sd": "010203"}}}},
@@ -94,7 +97,7 @@ def cfg(tier):
     c = dict(
         Eps=S("create", "update", "release", "recharge"),
         Supis=S("imsi", "nodash", "imsiempty", "nai", "slash") if tier == "quick" else S("imsi", "nodash", "imsiempty", "nai", "slash", "long"),
-        Nfcis=S("present", "absent"), Plmns=S("absent", "ok", "ok3", "shortmcc", "shortmnc", "emptymnc", "multibyte"),
+        Nfcis=S("present", "absent"), Plmns=S("absent", "ok", "ok3", "shortmcc", "shortmnc", "emptymnc", "multibyte", "mcc2mnc3", "mcc4mnc1", "mcc5", "mnc5", "mcc4mnc2"),
         Pdus=S("absent", "full", "no_info", "no_slice", "no_snssai"),
         Usages=S("none", "online_req", "online_noreq", "offline"), Trigs=S("none", "partial", "final"),
         Rparams=S("u_1", "u", "u_x", "_", "u_1_2"), Priors=S("fresh", "created", "debit"), Notifys=S("present", "absent"),
